@@ -169,7 +169,7 @@ class _GatedLock:
 
 
 class DecoSystem:
-    def __init__(self, db_path, idle_timeout=10.0, n_events=2, create_row=True, hold=()):
+    def __init__(self, db_path, idle_timeout=10.0, n_events=2, create_row=True, hold=(), send_yields=0):
         m = _import()
         from llama_agents.server._runtime.event_interceptor import EventInterceptorDecorator
         from llama_agents.server._runtime.persistence_runtime import TickPersistenceDecorator
@@ -187,6 +187,7 @@ class DecoSystem:
         self.idle_timeout = idle_timeout
         self.n_events = n_events
         self.hold = set(hold)
+        self.send_yields = int(send_yields)
         self.gates = {}
         self.events = []
         self.actors = {}            # asyncio task -> actor name
@@ -224,6 +225,21 @@ class DecoSystem:
                               "running_steps": sysm.in_step, "unanswered": len(sysm.outstanding)})
                 q.complete.add_done_callback(done)
                 return ext
+
+            def get_external_adapter(self, run_id):
+                inner = super().get_external_adapter(run_id)
+                if not sysm.send_yields:
+                    return inner
+                # a DBOS send is a database write: the recipient may pick the message up before the sender's call
+                # returns.  The put happens, then the sender yields `send_yields` times before send_event returns.
+                orig = inner.send_event
+
+                async def send_event(tick):
+                    await orig(tick)
+                    for _ in range(sysm.send_yields):
+                        await asyncio.sleep(0)
+                inner.send_event = send_event
+                return inner
 
         self.queues = []
         self.outstanding = set()     # events received by a control loop (or handed to a resume) and not yet answered
@@ -387,7 +403,7 @@ class DecoSystem:
 def run_deco_case(db_path, case):
     """case: {label, idle_timeout, n_events, create_row, hold: [...], script: [[cmd, arg], ...]}"""
     s = DecoSystem(db_path, idle_timeout=case.get("idle_timeout", 10.0), n_events=case.get("n_events", 2),
-                   create_row=case.get("create_row", True), hold=case.get("hold", ()))
+                   create_row=case.get("create_row", True), hold=case.get("hold", ()), send_yields=case.get("send_yields", 0))
     try:
         s.start()
         for cmd in case["script"]:
